@@ -202,32 +202,26 @@ class LazyEvaluatedKernelTensor(LinearOperator):
 
         # Get the indices of x1 and x2 that matter for the kernel
         # Call x1[*batch_indices, row_index, :]
-        try:
-            x1 = x1[(*batch_indices, row_index, dim_index)]
-        # We're going to handle multi-batch indexing with a try-catch loop
-        # This way - in the default case, we can avoid doing expansions of x1 which can be
-        # costly in terms of time
-        except IndexError:
+        # Batch indices refer to the broadcast batch shape: expand (a view) whenever x1 does not have it already.
+        # (An index applied to a size-1 dimension that stands for a larger broadcast one does not always raise:
+        # a slice silently selects nothing.)
+        if len(batch_indices) and x1.shape[:-2] != batch_shape:
             x1 = x1.expand(*batch_shape, *x1.shape[-2:])
-            x1 = x1[(*batch_indices, row_index, dim_index)]
+        x1 = x1[(*batch_indices, row_index, dim_index)]
 
         # Call x2[*batch_indices, col_index, :]
-        try:
-            x2 = x2[(*batch_indices, col_index, dim_index)]
-        # We're going to handle multi-batch indexing with a try-catch loop
-        # This way - in the default case, we can avoid doing expansions of x2 which can be
-        # costly in terms of time
-        except IndexError:
+        if len(batch_indices) and x2.shape[:-2] != batch_shape:
             x2 = x2.expand(*batch_shape, *x2.shape[-2:])
-            x2 = x2[(*batch_indices, col_index, dim_index)]
+        x2 = x2[(*batch_indices, col_index, dim_index)]
 
         if len(batch_indices) == 0 or all(ind == slice(None, None, None) for ind in batch_indices):
             new_kernel = self.kernel  # Avoid unnecessary copying when we aren't explicitly indexing batch dims
         else:
             try:
-                if 0 < len(self.kernel.batch_shape) < len(batch_shape):
-                    # fewer batch dimensions than the broadcast shape: the indices would be applied to the wrong
-                    # (left-aligned) dimensions of the parameters without raising - expand first
+                if len(self.kernel.batch_shape) and self.kernel.batch_shape != batch_shape:
+                    # fewer batch dimensions than the broadcast shape (the indices would be applied to the wrong,
+                    # left-aligned, dimensions of the parameters) or size-1 dimensions that stand for larger ones
+                    # (a slice would silently select nothing): expand first
                     raise IndexError
                 new_kernel = self.kernel.__getitem__(batch_indices)
             # We're going to handle multi-batch indexing with a try-catch loop
